@@ -23,7 +23,10 @@ RULE = ('seed sets of 1-2 distinct small molecules x all non-empty subsets '
         'objects per call. Non-trivial = a (seeds, rules) whose closure has '
         '>=3 species and whose returned list was compared species by species; '
         'distinct by (seeds, rules). Termination: at most 50x the rule '
-        'applications the reference closure needed.')
+        'applications the reference closure needed.'
+        ' Entry forms: rule objects; rule TEXT (RING first, SMARTS '
+        'fallback) with str seeds, with Mol seeds, and a bare string / bare '
+        'rule instead of lists. ')
 ASSUMPTIONS = [
     'unimolecular rules; closures above 250 species are skipped (counted)',
     'RunReactants of a single rule on a single species is a primitive '
